@@ -696,7 +696,7 @@ fn race(c: &Content, nthreads: usize, rounds: usize, r: &mut Rng, out: &mut Out,
 // deterministic schedules over the yield points of `Key::get_hash` (needs the `verif_key_hook` hook)
 
 #[cfg(has_key_hook)]
-mod sched {
+pub(crate) mod sched {
     use std::cell::Cell;
     use std::sync::{Arc, Condvar, Mutex};
 
@@ -907,7 +907,7 @@ fn mixed(_: &Content, _: &str, _: usize, _: &[u8], _: &[usize], out: &mut Out) {
 }
 
 /// every sequence that contains id `t` exactly `counts[t]` times
-fn all_interleavings(counts: &[usize]) -> Vec<Vec<usize>> {
+pub(crate) fn all_interleavings(counts: &[usize]) -> Vec<Vec<usize>> {
     fn go(left: &mut Vec<usize>, cur: &mut Vec<usize>, acc: &mut Vec<Vec<usize>>) {
         if left.iter().all(|&x| x == 0) {
             acc.push(cur.clone());
@@ -928,7 +928,7 @@ fn all_interleavings(counts: &[usize]) -> Vec<Vec<usize>> {
     acc
 }
 /// grants a thread needs at most: start + 3 for a first get_hash(); start + 2 `Cow::clone` points for a clone()
-fn grants_of(roles: &[u8]) -> Vec<usize> {
+pub(crate) fn grants_of(roles: &[u8]) -> Vec<usize> {
     roles.iter().map(|x| if *x == b'h' { 4 } else { 3 }).collect()
 }
 
